@@ -38,3 +38,41 @@ package keys
 //@ assume func (Address).Humanize
 //@   modifies nothing
 //@   ensures result == addrStr(str(a)) && addrOfStr(result) == str(a)
+
+// BTCEC keys: VerifyBytes performs NO signature check (it returns true for every input). That is only harmless
+// because such a key has no address, so action.ValidateBasic can never match it against a required signer. Both
+// facts are proved here, so that giving this key type an address without a real verification fails C04.
+//@ func (PublicKeyBTCEC).VerifyBytes
+//@   modifies nothing
+//@   ensures result                 // C04.btcec-no-verification
+//@ func (PublicKeyBTCEC).Address
+//@   modifies nothing
+//@   ensures isnil(result)          // C04.btcec-has-no-address
+
+// The repository's key handlers delegate to the library verification (uninterpreted, T-CRYPTO): proved, so that a
+// handler that stops calling the library check (or ignores its answer) fails C04.
+//@ ghost func libVerifySecp(key array[int]int, msg string, sig string) bool
+//@ ghost func libVerifyEd(key array[int]int, msg string, sig string) bool
+//@ ghost func libVerifyEth(pub string, msg string, sig string) bool
+//@ assume func github.com/tendermint/tendermint/crypto/secp256k1.(PubKeySecp256k1).VerifyBytes
+//@   modifies nothing
+//@   ensures result == libVerifySecp(self, str(msg), str(sigStr))
+//@ assume func github.com/tendermint/tendermint/crypto/ed25519.(PubKeyEd25519).VerifyBytes
+//@   modifies nothing
+//@   ensures result == libVerifyEd(self, str(msg), str(sig))
+//@ assume func github.com/ethereum/go-ethereum/crypto.VerifySignature
+//@   modifies nothing
+//@   ensures result == libVerifyEth(str(pubkey), str(digestHash), str(signature))
+//@ ghost func ethPubOf(k *ecdsa.PublicKey) string
+//@ assume func github.com/ethereum/go-ethereum/crypto.CompressPubkey
+//@   modifies nothing
+//@   ensures str(result) == ethPubOf(pubkey)
+
+//@ func (PublicKeySECP256K1).VerifyBytes
+//@   modifies nothing
+//@   ensures result == libVerifySecp(k.key, str(msg), str(sig))          // C04.real-verification
+
+//@ func (PublicKeyETHSECP).VerifyBytes
+//@   modifies nothing
+//@   ensures len(sig) != 65 ==> result == libVerifyEth(ethPubOf(k.key), str(msg), str(sig))                                   // C04.real-verification
+//@   ensures len(sig) == 65 ==> result == libVerifyEth(ethPubOf(k.key), str(msg), @str_sub(str(sig), 0, 64))                   // C04.real-verification
